@@ -243,6 +243,8 @@ def _others_untouched(ex, fr, m, old_m, k):
 @specfn("snap")
 def _snap(ex, fr, m):
     """immutable snapshot of a mapping view, for old()"""
+    if not isinstance(m, VMap):
+        raise Unsupported("snap() of %r" % (m,))
     return VMap(m.keys, m.vals, m.n)
 
 
